@@ -116,7 +116,8 @@ def _shape_stream(shape):
 
 
 def _drive(ws, ncalls, max_retries):
-    """call recv_data(control_frame=True) until the stream ends; a timeout is retried (same call)"""
+    """call recv_data(control_frame=True) until the stream ends; a timeout - on a non-blocking transport: a would-block
+    (BlockingIOError) - is retried (same call)"""
     Proto, Payload, Closed, Timed = _excs()
     out = []
     retries = 0
@@ -125,7 +126,7 @@ def _drive(ws, ncalls, max_retries):
         try:
             op, data = ws.recv_data(True)
             out.append(("msg", op, data))
-        except Timed:
+        except (Timed, BlockingIOError):
             retries += 1
             if retries > max_retries:
                 out.append(("too-many-timeouts",))
@@ -173,7 +174,7 @@ def _same(a, b, what):
             sx.require(sx.And(x[1] == y[1], x[2] == y[2]), "same opcode and payload (%s)" % what)
 
 
-def s_part(shape, ncuts, ntimeouts, allcuts=False):
+def s_part(shape, ncuts, ntimeouts, allcuts=False, nonblocking=False):
     """the same traffic under the trivial partition and under a symbolic partition + timeouts"""
     quiet_logging()
     stream = _shape_stream(shape)
@@ -200,6 +201,8 @@ def s_part(shape, ncuts, ntimeouts, allcuts=False):
     ref = _drive(w0, 8, 0)
     # partitioned run
     s1 = FakeSock(_partition(stream, cuts, touts) + ["eof"])
+    if nonblocking:
+        s1.timeout = 0  # select-driven application: a read before the next segment has arrived raises EAGAIN and is retried later
     w1 = new_ws(s1, get_mask_key=KeySource(list(keys1)), skip_utf8_validation=True)
     got = _drive(w1, 8, ntimeouts)
     _same(got, ref, shape)
@@ -287,6 +290,8 @@ def obligations(tier):
         part.append(dict(shape=sh, ncuts=0, ntimeouts=0, allcuts=True))  # every partition (stream lengths 5..10)
         part.append(dict(shape=sh, ncuts=2 if not thorough else 3, ntimeouts=2))
     part.append(dict(shape="bin16", ncuts=2, ntimeouts=1))
+    for sh in ("text", "frag+ping", "close"):
+        part.append(dict(shape=sh, ncuts=2, ntimeouts=2, nonblocking=True))
     if thorough:
         part.append(dict(shape="bin16", ncuts=3, ntimeouts=2))
         for sh in ("frag+ping", "two-text"):
@@ -299,7 +304,8 @@ def obligations(tier):
                    must_cover=["returned", "timeout-kept"], budget_s=1800, kernel=["frame_buffer.recv_strict"]),
         Obligation("S-part", s_part, part,
                    bounds="traffic shapes %s with symbolic payloads: EVERY partition of the 5..11-byte streams into reads; all placements of <=%d cuts "
-                          "with <=2 timeouts (before any segment) on all shapes incl. a 134-byte 16-bit frame" % (shapes + ["bin16"], 3 if thorough else 2),
+                          "with <=2 timeouts (before any segment) on all shapes incl. a 134-byte 16-bit frame; 3 shapes also on a non-blocking transport "
+                          "(timeout 0: would-block instead of timeout)" % (shapes + ["bin16"], 3 if thorough else 2),
                    must_cover=["part", "with-timeout"], budget_s=2400 if thorough else 1200,
                    kernel=["frame_buffer.recv_frame (stage flags)", "recv_strict", "_socket.recv", "WebSocket._recv", "recv_data_frame", "continuous_frame.*"]),
         Obligation("S-hand", s_hand, hand,
